@@ -17,6 +17,22 @@ Definition obs_matches (o : obs) (r : rres) : bool :=
   | _, _ => false
   end.
 
+(* A point read over HTTP goes through VersionedCtx.GetBestKeyVersion, which reports an
+   unresolved conflict as "no key" (the error of FindMatch is dropped when no k/v is returned):
+   the request answers 404.  The property only demands that it does not succeed with a value. *)
+Definition obs_matches_http (o : obs) (r : rres) : bool :=
+  match o, r with
+  | ObsNone, RConflict => true
+  | ObsErr, RConflict => false
+  | _, _ => obs_matches o r
+  end.
+(* what the property allows for a frontier result *)
+Definition obs_allowed (o : obs) (r : rres) : bool :=
+  match o, r with
+  | ObsNone, RConflict => true
+  | _, _ => obs_matches o r
+  end.
+
 Inductive oobs := OAccepted | ORefused | ORead (o : obs).
 
 Inductive c01case :=
@@ -27,7 +43,7 @@ Definition out_matches (o : oobs) (x : out) : bool :=
   match o, x with
   | OAccepted, Accepted => true
   | ORefused, Refused => true
-  | ORead ob, Read r => obs_matches ob r
+  | ORead ob, Read r => obs_matches_http ob r
   | _, _ => false
   end.
 
@@ -53,7 +69,7 @@ Fixpoint hist_spec (ops : list op) (observed : list oobs) (c : core) : bool :=
   | o :: r, ob :: obr =>
     let ok := match o, ob with
               | OGet k v, ORead x =>
-                obs_matches x (frontier_read (parents_of (dag c)) (ent_of c k) (fuel_of c) v)
+                obs_allowed x (frontier_read (parents_of (dag c)) (ent_of c k) (fuel_of c) v)
               | OGet _ _, _ => false
               | _, _ => true
               end in
@@ -69,7 +85,7 @@ Fixpoint hist_spec (ops : list op) (observed : list oobs) (c : core) : bool :=
 Definition spec_class (c : c01case) : nat :=
   match c with
   | CDag g keys v fuel o =>
-    if obs_matches o (frontier_read (parents_of g) (kvv_of keys) fuel v) then 0%nat else 1%nat
+    if obs_allowed o (frontier_read (parents_of g) (kvv_of keys) fuel v) then 0%nat else 1%nat
   | CHist ops observed => if hist_spec ops observed core_init then 0%nat else 1%nat
   end.
 
